@@ -26,6 +26,8 @@ type Case struct {
 	CtxOK     bool
 	Repeats   []string // canonical renderings of repeated runs (C09 oracle)
 	dest0v    reflect.Value
+	PoolMode  string
+	TypesOK   bool   // every callback received an argument of the documented dynamic type
 	FE        string // front end the input travelled through ("" = plain Go value)
 	DataCoq   string // Gallina [data] term when the input is a provider or a factory
 	FEChecked bool   // the cross-front-end oracle applied
@@ -199,12 +201,17 @@ func NewCase(g *Gen, id int, forceValidate *bool) *Case {
 	var structs []*Node
 	structNodes(n, &structs)
 
-	freshPools := g.R.P(50)
+	// pooled objects: freshly allocated (path builders at their initial capacity, ...), whatever the
+	// previous cases left behind, or *dirty* objects with every field set to junk (what sync.Pool may
+	// legitimately hand out after arbitrary earlier executions)
+	c.PoolMode = Pick(g.R, []string{"fresh", "fresh", "recycled", "recycled", "dirty"})
 	run := func() (Observed, map[*Node][]string, bool) {
-		if freshPools {
-			// start from freshly allocated pooled objects (path builders at their initial capacity, ...);
-			// the other half of the cases runs on whatever the previous cases left in the pools
+		switch c.PoolMode {
+		case "fresh":
 			internals.ClearPools()
+		case "dirty":
+			DirtyPools()
+			defer internals.ClearPools()
 		}
 		dest := copyDest(t, dest0)
 		var data any
@@ -256,9 +263,13 @@ func NewCase(g *Gen, id int, forceValidate *bool) *Case {
 	ids := map[int]*Node{}
 	indexIDs(n, ids)
 	c.CtxOK = true
+	c.TypesOK = true
 	for i := range c.Obs.Calls {
 		cr := &c.Obs.Calls[i]
 		node := ids[cr.ID]
+		if want := expectedArgType(node, cr.Kind, validate); want != "" && want != cr.Type {
+			c.TypesOK = false
+		}
 		switch {
 		case cr.Nil || cr.Arg == nil:
 			cr.coqArg = "None"
@@ -272,6 +283,29 @@ func NewCase(g *Gen, id int, forceValidate *bool) *Case {
 		}
 	}
 	return c
+}
+
+// expectedArgType: the documented dynamic type of a callback's argument - the value itself for
+// primitive TestFuncs, a pointer to the destination for everything else.
+func expectedArgType(n *Node, kind string, validate bool) string {
+	if n == nil {
+		return ""
+	}
+	switch kind {
+	case "test":
+		if IsPrim(n.Kind) {
+			return TypeOf(n).String()
+		}
+		return "*" + TypeOf(n).String()
+	case "pt", "custom":
+		return "*" + TypeOf(n).String()
+	case "pre":
+		if validate {
+			return "*string"
+		}
+		return "<nil>" // the Parse-mode probe records no argument
+	}
+	return ""
 }
 
 // argNode: the node whose destination type the callback argument has.
@@ -305,7 +339,7 @@ func (c *Case) Coq() string {
 	}
 	return fmt.Sprintf("  (%s\n   EC %d %s %s\n     %s\n     %s %s %s %s %s\n     %s)",
 		c.oracles(), c.ID, mode, CoqSchema(c.Schema, c.Order), data, c.Dest0,
-		CoqBool(c.Known), CoqBool(c.Collide), CoqBool(c.CtxOK), CoqBool(c.RepeatsAgree()), CoqObserved(&c.Obs, c.Schema))
+		CoqBool(c.Known), CoqBool(c.Collide), CoqBool(c.CtxOK && c.TypesOK), CoqBool(c.RepeatsAgree()), CoqObserved(&c.Obs, c.Schema))
 }
 
 func (c *Case) oracles() string {
@@ -333,6 +367,9 @@ func (s *Stats) Add(c *Case) {
 	}
 	if c.FE != "" {
 		s.Kinds["fe:"+c.FE]++
+	}
+	if c.PoolMode != "" {
+		s.Kinds["pools:"+c.PoolMode]++
 	}
 	if c.FEChecked {
 		s.Kinds["fe:cross-front-end oracle applied"]++
